@@ -62,6 +62,8 @@ for m in sorted(glob.glob(os.path.join(V, 'seeded/*/meta.json'))):
 SEEDED = "\n".join(rows)
 
 body = open(os.path.join(V, 'tools/design_body.md')).read()
+metas=[json.load(open(m)) for m in glob.glob(os.path.join(V,'seeded/*/meta.json'))]
+body = body.replace('{{SEED_TOTAL}}', str(len(metas))).replace('{{SEED_MISSED}}', str(sum(1 for d in metas if 'MISSED' in d.get('result',''))))
 body = body.replace('{{PROPERTIES}}', PROPS).replace('{{FIXED_TABLE}}', FIXED).replace('{{COMMITS}}', COMMITS).replace('{{KNOWN_TABLE}}', KNOWN).replace('{{SEEDED_TABLE}}', SEEDED)
 open(os.path.join(V, 'DESIGN.md'), 'w').write(body)
 print('DESIGN.md written:', len(body.splitlines()), 'lines')
